@@ -42,6 +42,7 @@ type act struct {
 	Rmin int    `json:"rmin"`
 	Rmax int    `json:"rmax"`
 	Q    string `json:"q"`
+	From string `json:"from"`
 }
 
 type script struct {
@@ -58,6 +59,7 @@ type pinView struct {
 	Everywhere bool     `json:"everywhere"`
 	Rmin       int      `json:"rmin"`
 	Rmax       int      `json:"rmax"`
+	Exp        bool     `json:"exp"`
 }
 
 type obs struct {
@@ -67,6 +69,8 @@ type obs struct {
 	Ipfs    map[string]map[string]string `json:"ipfs"`
 	Settled bool                         `json:"settled"`
 	Results []string                     `json:"results"`
+	// per CID that had expired: how many unpins the StateSync rounds issued for it
+	ExpUnpins map[string]int `json:"expunpins"`
 }
 
 type node struct {
@@ -210,7 +214,34 @@ func runScript(t *testing.T, sc *script, seed int64) (*obs, error) {
 			}
 		}
 	}
-	o := &obs{Script: sc.ID, Ps: map[string]pinView{}, Ipfs: map[string]map[string]string{}}
+	o := &obs{Script: sc.ID, Ps: map[string]pinView{}, Ipfs: map[string]map[string]string{}, ExpUnpins: map[string]int{}}
+	var lastExpiry time.Time
+	stateSyncRound := func() {
+		if d := time.Until(lastExpiry); d > 0 {
+			time.Sleep(d + 120*time.Millisecond)
+		}
+		// which pins are expired now
+		expired := map[string]bool{}
+		for _, p := range shared.Pins() {
+			if p.ExpiredAt(time.Now()) {
+				expired[names.CidName(p.Cid)] = true
+				if _, ok := o.ExpUnpins[names.CidName(p.Cid)]; !ok {
+					o.ExpUnpins[names.CidName(p.Cid)] = 0
+				}
+			}
+		}
+		shared.TakeCalls()
+		for _, n := range order {
+			if up[n.name] {
+				n.r.Cluster.StateSync(ctx)
+			}
+		}
+		for _, k := range shared.TakeCalls() {
+			if k.Kind == "unpin" && expired[names.CidName(k.Pin.Cid)] {
+				o.ExpUnpins[names.CidName(k.Pin.Cid)]++
+			}
+		}
+	}
 	for _, a := range sc.Acts {
 		switch a.Name {
 		case "Pin":
@@ -223,6 +254,24 @@ func runScript(t *testing.T, sc *script, seed int64) (*obs, error) {
 		case "Unpin":
 			_, err := nodes[a.At].r.Cluster.Unpin(ctx, names.Cid(a.Cid))
 			o.Results = append(o.Results, fmt.Sprintf("Unpin(%s,%s)=%v", a.At, a.Cid, err == nil))
+		case "PinUpdate":
+			_, err := nodes[a.At].r.Cluster.PinUpdate(ctx, names.Cid(a.From), names.Cid(a.Cid), api.PinOptions{})
+			o.Results = append(o.Results, fmt.Sprintf("PinUpdate(%s,%s->%s)=%v", a.At, a.From, a.Cid, err == nil))
+		case "PinExpiring":
+			cur, err := shared.State.Get(ctx, names.Cid(a.Cid))
+			if err == nil {
+				opts := cur.PinOptions
+				opts.ExpireAt = time.Now().Add(350 * time.Millisecond)
+				opts.PinUpdate = cid.Undef
+				_, err = nodes[a.At].r.Cluster.Pin(ctx, names.Cid(a.Cid), opts)
+				if err == nil && opts.ExpireAt.After(lastExpiry) {
+					lastExpiry = opts.ExpireAt
+				}
+			}
+			o.Results = append(o.Results, fmt.Sprintf("PinExpiring(%s,%s)=%v", a.At, a.Cid, err == nil))
+		case "StateSyncAll":
+			stateSyncRound()
+			o.Results = append(o.Results, "StateSyncAll")
 		case "PeerFail":
 			up[a.Q] = false
 			setMetrics()
@@ -237,6 +286,8 @@ func runScript(t *testing.T, sc *script, seed int64) (*obs, error) {
 		}
 		time.Sleep(time.Duration(seed%3) * time.Millisecond)
 	}
+	// every run ends with a StateSync round after the last expiry (the periodic state sync)
+	stateSyncRound()
 	// wait until nothing changes any more (no operation in any live tracker, daemons stable)
 	deadline := time.Now().Add(20 * time.Second)
 	var last string
@@ -282,6 +333,7 @@ func runScript(t *testing.T, sc *script, seed int64) (*obs, error) {
 		if p.Mode == api.PinModeDirect {
 			v.Mode = "dir"
 		}
+		v.Exp = p.ExpiredAt(time.Now())
 		sort.Strings(v.Allocs)
 		o.Ps[names.CidName(p.Cid)] = v
 	}
